@@ -43,8 +43,8 @@ ASSUMPTIONS = [
 ]
 COMPONENTS = {"real": ["atomica Model / Population / Project.run_sim / Result / Scenario / Project.save/load", "pickle, copy.deepcopy, sciris dcp/saveobj/loadobj"], "stub": ["scheduler only: real threads parked/released one at a time (atomsim.baton)"]}
 
-VARIANTS = ["plain", "progs", "budget", "coverage", "yfactors_dt", "parscen", "saved_init", "offgrid_end"]
-PRIVATE_SETTINGS = ("yfactors_dt", "offgrid_end")  # variants that change the project's settings: their project object is never shared
+VARIANTS = ["plain", "progs", "budget", "coverage", "yfactors_dt", "parscen", "saved_init", "offgrid_end", "framework_edit"]
+PRIVATE_SETTINGS = ("yfactors_dt", "offgrid_end", "framework_edit")  # variants that change the project's settings: their project object is never shared
 PROJECTS = ["udt", "usdt", "tb_simple", "udt_dyn", "hiv", "hypertension", "dt", "service", "timed_test", "uncertainty", "tb_simple_dyn", "hiv_dyn", "hypertension_dyn", "diabetes", "cervicalcancer", "timed_transfer", "timed_transfer_2", "timed_eligibility", "timed_indirect", "timed_indirect2", "derivative", "par_min_max", "no_compartment", "tb", "timed_tb", "legacy_scen", "legacy_nores"]
 HEAVY = {"tb", "timed_tb", "legacy_scen", "legacy_nores"}
 TEMPLATES = [
@@ -84,7 +84,7 @@ def budget(tier):
 def variants_for(entry):
     if entry.meta["has_progset"]:
         return list(VARIANTS)
-    return ["plain", "yfactors_dt", "parscen", "saved_init", "offgrid_end"]
+    return ["plain", "yfactors_dt", "parscen", "saved_init", "offgrid_end", "framework_edit"]
 
 
 def make_config(at, P, variant):
@@ -136,6 +136,14 @@ def make_config(at, P, variant):
         if P.progsets and len(P.progsets):
             progset = P.progsets[0]
             instr = at.ProgramInstructions(start_year=start + 2)
+    elif variant == "framework_edit":
+        # the project's own framework object edited in place (same uid, other content): a parameter function is scaled
+        fpars = P.framework.pars
+        cand = [n for n in fpars.index if isinstance(fpars.at[n, "function"], str) and not str(fpars.at[n, "function"]).startswith(("SRC_", "TGT_"))]
+        if not cand:
+            raise ValueError("no function parameter to edit")
+        n0 = cand[0]
+        fpars.at[n0, "function"] = "0.5*(" + str(fpars.at[n0, "function"]) + ")"
     elif variant == "parscen":
         target = None
         # prefer a FUNCTION parameter (the overwrite then carries a skip_function window into the model), else a data parameter
